@@ -185,11 +185,13 @@ def Pm.SetRangeStmt (D : Type) [MapLike D PmKey (PmVal α)] (S : Type) [MapLike 
   ∀ (t : Pm α D) (s : Ideal α) (start : Nat) (vs : List α), Pm.Rel H dflt t s → vs ≠ [] →
     PmRefines H dflt t s (Pm.setRange S H start vs t) (Ideal.setRange s start vs)
 
-/-- C08 for the persistent tree: validation, dropped no-op removals, one covering range write -/
-def Pm.BatchStmt (D : Type) [MapLike D PmKey (PmVal α)] (S : Type) [MapLike S (Nat × Nat) α]
+/-- C08 for the persistent tree, partial: the adapter's `remove_indices` /
+    `remove_indices_and_set_leaves` are wrong on most shapes (open finding C08-pm-batch, pinned by
+    an existing test); what holds is the part of the dispatch that never reaches them. -/
+def Pm.BatchStmtPartial (D : Type) [MapLike D PmKey (PmVal α)] (S : Type) [MapLike S (Nat × Nat) α]
     (H : α → α → α) (dflt : α) : Prop :=
-  ∀ (t : Pm α D) (s : Ideal α) (start : Nat) (vs : List α) (rem : List Nat), Pm.Rel H dflt t s →
-    PmRefines H dflt t s (Pm.overrideRange S H dflt start vs rem t) (Ideal.batch dflt s start vs rem)
+  ∀ (t : Pm α D) (s : Ideal α) (start : Nat) (vs : List α), Pm.Rel H dflt t s →
+    PmRefines H dflt t s (Pm.overrideRange S H dflt start vs [] t) (Ideal.batch dflt s start vs [])
 
 def Pm.ObsStmt (D : Type) [MapLike D PmKey (PmVal α)] (H : α → α → α) (dflt : α) : Prop :=
   ∀ (t : Pm α D) (s : Ideal α), Pm.Rel H dflt t s →
